@@ -10,7 +10,7 @@ Line protocol for C06 (arithmetic, comparison, number literals, number printing)
                              (exact apd coefficient/exponent, MarshalJSON text, Syntax+format text).
   cmps <op> <x> <y>       O  comparison of strings / bytes / a number: x, y = `s:<hex>` `y:<hex>` `n:<lit>`.
   lit <hex>               O  value of a string through `literal.ParseNum` + `NumInfo.Decimal` (= `compiler.parse`; a sign is accepted): `int|float <c>e<x>` (normalised),
-                             `nan`, `err`.
+                             `err`.
   litrepr <hex>           I  the same with the exact coefficient/exponent.
   litspec <ast…>          O  the SPECIFICATION: `<hex spelling> <kind> <num>/<den>` of a grammar tree
                              (`not-wf` if the tree violates the EBNF side conditions, `huge` if the
@@ -130,12 +130,10 @@ def litExpOf : Lit → Int
 
 def litResValue : LitRes → String
   | .ok n => s!"{kindStr n.k} {decStr (Dec.normalize n.d)}"
-  | .nan => "nan"
   | .err => "err"
 
 def litResRepr : LitRes → String
   | .ok n => s!"{kindStr n.k} {decStr n.d}"
-  | .nan => "nan"
   | .err => "err"
 
 def handle (ws : List String) : String :=
